@@ -243,9 +243,21 @@ func c05R1(p *core.Prog, r *core.Report) {
 			}
 		}
 		findTee(src, 0)
+		// or the destination fans out: io.Copy(io.MultiWriter(temp file, digester.Hash()), caller's reader)
+		for _, oc := range originCalls(cp.Call.Args[0]) {
+			if cal := core.Callee(oc); cal != nil && core.IsFunc(cal, "io", "MultiWriter") && len(oc.Call.Args) == 1 {
+				for _, w := range variadicElems(oc.Call.Args[0]) {
+					for _, h := range originCalls(underIface(w)) {
+						if hc := core.Callee(h); hc != nil && hc.Name() == "Hash" {
+							tee = true
+						}
+					}
+				}
+			}
+		}
 		okSrc = tee
 		if tee {
-			detail = "io.Copy(temp file, io.TeeReader(caller's reader, digester.Hash()))"
+			detail = "the caller's whole stream reaches both the temp file and digester.Hash() (TeeReader on the source or MultiWriter on the destination)"
 		}
 	}
 	r.Check(okSrc, rule, fname, "whole stream teed into the digester", p.Pos(cp.Pos()), detail)
